@@ -16,7 +16,7 @@ Definition obs_of (r : sres) : obs :=
   | SFound fo s => (1, s_beg s, fo, s_t s)
   | SDone => (0, 0, 0, 0%Z)
   | SDoneErr c => (2, c, 0, 0%Z)
-  | SPanic c => (3, c, 0, 0%Z)
+  | SPanic c => (3, 0, 0, 0%Z)
   | SOutOfFuel => (4, 0, 0, 0%Z)
   end.
 Definition obs_eqb (a b : obs) : bool :=
@@ -24,15 +24,55 @@ Definition obs_eqb (a b : obs) : bool :=
   (k1 =? k2) && (b1 =? b2) && (n1 =? n2) && (t1 =? t2)%Z.
 Definition obs_num (o : obs) : N := let '(k, b, n, _) := o in k * 1000000000 + b.
 
+(* ---- number of find_sysline calls a search makes.  The implementation's count is observable
+   (every call increments the LRU cache hit or miss counter of SyslineReader::summary()), so the
+   iteration structure of the loops -- what the fuel theorems speak about -- is tied as well. *)
+Section Calls.
+  Variables (gs : list sl) (filesz : N) (dt : option Z) (fo0 : N).
+  (* 1 when the end game looks at the next message (find_sysline(fo_next)), else 0 *)
+  Definition endgame_extra (done : bool) (st : bst) : N :=
+    if done && (try_fo st =? try_fo_last st) then 0
+    else if negb (try_fo st =? try_fo_last st) then 0
+    else match last_found st with
+         | None => 0
+         | Some s => if is_last filesz s && (s_beg s <? try_fo st) then 0
+                     else if s_beg s <? try_fo st then 1 else 0
+         end.
+  Fixpoint bcalls (fuel : nat) (st : bst) : N :=
+    match fuel with
+    | O => 0
+    | S f =>
+      match bmatch gs dt fo0 st with
+      | inr _ => 1
+      | inl (done, st') =>
+        1 + endgame_extra done st' +
+        match endgame gs filesz dt done st' with Continue st'' => bcalls f st'' | Return _ => 0 end
+      end
+    end.
+  Fixpoint lcalls (fuel : nat) (fo : N) : N :=
+    match fuel with
+    | O => 0
+    | S f =>
+      match find gs fo with
+      | FDone => 1
+      | FFound s => match dt_after_or_before (s_t s) dt with
+                    | OccursBefore => 1 + lcalls f (s_next s)
+                    | _ => 1
+                    end
+      end
+    end.
+End Calls.
+
 (* ---- B: implementation vs model.
-   query = (mode, A, B, fo0, observed)   mode 0 find_sysline_at_datetime_filter (binary search)
+   query = (mode, A, B, fo0, observed, observed number of find_sysline calls)
+                                         mode 0 find_sysline_at_datetime_filter (binary search)
                                               1 the same on a streamed file (linear search)
                                               2 find_sysline_between_datetime_filters, plain
                                               3 the same, streamed
                                               4 find_sysline *)
-Definition query := (N * option Z * option Z * N * obs)%type.
+Definition query := (N * option Z * option Z * N * obs * N)%type.
 Definition model_obs (lead : N) (l : layout) (q : query) : obs :=
-  let '(mode, a, b, fo0, _) := q in
+  let '(mode, a, b, fo0, _, _) := q in
   match mode with
   | 0 => obs_of (l_bsearch lead l a fo0)
   | 1 => obs_of (l_linear lead l a fo0)
@@ -40,15 +80,33 @@ Definition model_obs (lead : N) (l : layout) (q : query) : obs :=
   | 3 => obs_of (l_find_between lead l true a b fo0)
   | _ => match l_find lead l fo0 with FFound s => obs_of (found s) | FDone => obs_of SDone end
   end.
+Definition model_calls (lead : N) (l : layout) (q : query) : N :=
+  let '(mode, a, b, fo0, _, _) := q in
+  let gs := groups lead l in let fsz := fsize lead l in
+  match mode with
+  | 0 | 2 => bcalls gs fsz a fo0 (bfuel fsz) (bstart fsz fo0)
+  | 1 | 3 => lcalls gs a (lfuel gs) fo0
+  | _ => 1
+  end.
+
+(* what the caller of the Rust function can observe: "Done after an error message" is Done *)
+Definition impl_view (o : obs) : obs :=
+  let '(k, b, n, t) := o in if k =? 2 then (0, 0, 0, 0%Z) else o.
 
 Definition case := (N * layout * list query)%type.
-(* disagreements as (case index * 1000 + query index, numeric digest of the model's answer) *)
+(* disagreements as (case index * 1000 + query index, numeric digest of the model's answer);
+   a disagreement on the number of calls only is reported with digest 5000000000 + model calls;
+   a panic of the implementation carries no count *)
 Definition model_bad (cs : list case) : list (N * N) :=
   flat_map (fun ic => let '(i, (lead, l, qs)) := ic in
     flat_map (fun jq => let '(j, q) := jq in
                         let m := model_obs lead l q in
-                        let '(_, _, _, _, impl) := q in
-                        if obs_eqb m impl then [] else [(i * 1000 + j, obs_num m)])
+                        let '(_, _, _, _, impl, icalls) := q in
+                        if obs_eqb (impl_view m) impl
+                        then (let '(k, _, _, _) := impl in
+                              if (k =? 3) || (model_calls lead l q =? icalls) then []
+                              else [(i * 1000 + j, 5000000000 + model_calls lead l q)])
+                        else [(i * 1000 + j, obs_num m)])
              (index_from 0 qs))
     (index_from 0 cs).
 
